@@ -260,6 +260,8 @@ def _gen_concat(rng):
             elif r0 < 0.2:                             # no notes, total_time 0, but events (at and after 0)
                 s = nsio.gen_desc(rng, max_notes=0, hi_quarters=6, max_events=2)
                 s['total'] = 0
+            if rng.random() < 0.3:
+                _add_redundant(rng, s)
             s['meta'] = None
             s['xmeta'] = _gen_xmeta(rng)
             base = s
@@ -279,10 +281,26 @@ def _gen_concat(rng):
     return {'op': 'concat', 'input': {'seqs': seqs, 'durs': durs}}
 
 
+def _add_redundant(rng, s):
+    """Store, inside the piece itself, tempo / time-signature / key events that only repeat the value of the
+    event before them in time (what remove_redundant_data must drop, also when one copy is enough)."""
+    for f in ('tempos', 'tsigs', 'ksigs'):
+        if rng.random() < 0.6:
+            if not s[f]:
+                s[f].append({'tempos': [0, 120 << nsio.QPM_BITS], 'tsigs': [0, 4, 4], 'ksigs': [0, 2, 0]}[f])
+            for _ in range(rng.randint(1, 2)):
+                e = list(rng.choice(s[f]))
+                e[0] += rng.choice([0, 1, Q, Q, 2 * Q, 5 * Q])
+                s[f].insert(rng.randint(0, len(s[f])), e)
+    return s
+
+
 def _gen_repeat(rng):
     s = _seq(rng, max_notes=5, hi_quarters=10, max_events=3)
     if rng.random() < 0.05:
         s = nsio.gen_desc(rng, max_notes=0, with_events=False)            # total_time 0 -> ZeroDivisionError
+    elif rng.random() < 0.5:
+        _add_redundant(rng, s)
     _maybe_quantized(rng, s, 0.03)
     sd = None
     r = rng.random()
@@ -294,7 +312,12 @@ def _gen_repeat(rng):
         sd = 0
     dur = sd if sd else s['total']
     r = rng.random()
-    if r < 0.35 and dur:
+    if r < 0.25 and dur > 0:                # ONE copy is enough: d <= dur (inside the piece, on its end, or
+        # beyond total_time but within a longer explicit sequence_duration)
+        d = rng.choice([dur, dur, max(1, dur - 1), max(1, dur - Q), rng.randint(1, max(1, dur // Q)) * Q,
+                        max(1, min(dur, s['total'] + 1))])
+        d = max(1, min(d, dur))
+    elif r < 0.5 and dur:
         d = dur * rng.randint(1, 4) + rng.choice([0, 0, -1, 1, -Q, Q])
     elif r < 0.93:
         d = rng.randint(1, 60) * Q + rng.choice([0, 0, 0, 1, -1])
@@ -456,6 +479,10 @@ def _mini(notes=(), total=0, **kw):
     return d
 
 
+RED = {'tempos': [[0, 120 << 20], [4 * Q, 120 << 20], [8 * Q, 90 << 20]], 'tsigs': [[0, 4, 4], [6 * Q, 4, 4]],
+       'ksigs': [[0, 2, 0], [2 * Q, 2, 0]]}
+
+
 def corpus():
     n1 = [60, 80, 4 * Q, 8 * Q, 0, 0, 0, 0, 0, 0]
     full = _mini([n1], 8 * Q, tempos=[[4 * Q, 120 << 20]], tsigs=[[4 * Q, 4, 4]], ksigs=[[4 * Q, 2, 0]],
@@ -493,6 +520,12 @@ def corpus():
         # quantization_info is a oneof: the later piece's steps_per_second replaces steps_per_quarter (both pieces
         # have total_time 0, so neither is shifted and neither is rejected)
         {'op': 'concat', 'input': {'seqs': [_mini(spq=1, qsteps=54), _mini(sps=10, qsteps=2, total=0)], 'durs': None}},
+        # repeat with ONE copy (duration inside the piece / exactly its length / within a longer explicit
+        # sequence_duration) and with two, over a piece that itself stores redundant tempo / time-signature / key events
+        {'op': 'repeat', 'input': {'seq': _mini([n1], 16 * Q, **RED), 'd': 12 * Q, 'sd': None}},
+        {'op': 'repeat', 'input': {'seq': _mini([n1], 16 * Q, **RED), 'd': 16 * Q, 'sd': None}},
+        {'op': 'repeat', 'input': {'seq': _mini([n1], 16 * Q, **RED), 'd': 18 * Q, 'sd': 20 * Q}},
+        {'op': 'repeat', 'input': {'seq': _mini([n1], 16 * Q, **RED), 'd': 24 * Q, 'sd': None}},
         # repeat: exact multiple, one tick over, explicit duration, zero duration
         {'op': 'repeat', 'input': {'seq': full, 'd': 16 * Q, 'sd': None}},
         {'op': 'repeat', 'input': {'seq': full, 'd': 16 * Q + 1, 'sd': None}},
@@ -985,9 +1018,29 @@ def _oracle_repeat(a, io):
                 return {'kind': 'repeat-%s-in-force-changed' % LISTS[i], 'time': t}
         if any(r[0] >= d or r[0] < 0 for r in outsorted):
             return {'kind': 'repeat-%s-outside-window' % LISTS[i]}
+        # "the concatenation of enough copies": concatenation keeps no tempo / time signature / key that repeats
+        # the value already in force, for ANY number of copies, one included
+        if not _ambiguous(allev):
+            for x, y in zip(outsorted, outsorted[1:]):
+                if x[1:] == y[1:]:
+                    return {'kind': 'repeat-%s-redundant-event-kept' % LISTS[i], 'copies': n, 'event': y}
+    from note_seq import sequences_lib as sl
+    # the statement itself through the library's own public building blocks: concatenate the documented number of
+    # copies, cut at d (the input may be a pseudo-description in a chain: then the copies are built from its wire)
+    if '_wire' not in desc:
+        piece = _proto(desc)
+        ref = sl.extract_subsequence(
+            sl.concatenate_sequences([piece] * n, sequence_durations=[nsio.t2f(dur)] * n), 0.0, nsio.t2f(d))
+        ref.ClearField('subsequence_info')
+        wref = _canon(nsio.to_wire(ref), drop_rest=True)
+        for i, name in enumerate(LISTS):
+            if wref[i] != wout[i]:
+                return {'kind': 'repeat-%s-differ-from-cut-of-concatenated-copies' % name, 'copies': n,
+                        'expected': len(wref[i]), 'got': len(wout[i])}
+        if wref[I_TOTAL] != wout[I_TOTAL]:
+            return {'kind': 'repeat-total-time-differs-from-cut-of-concatenated-copies', 'copies': n}
     # control changes: only the preserved (pedal) numbers survive; per (instrument, number) the value in force
     # at every instant of [0, d) is that of the copies
-    from note_seq import sequences_lib as sl
     pres = set(sl.DEFAULT_SUBSEQUENCE_PRESERVE_CONTROL_NUMBERS)
     if set([64, 66, 67]) != pres:
         return {'kind': 'preserved-control-numbers-changed', 'got': sorted(pres)}
